@@ -12,7 +12,25 @@ import z3
 from values import *
 from execu import Refuse, strip_generics, base_ident
 import models
-from models import model, mk, slice_of, new_slice
+from models import mk, slice_of, new_slice, slice_len
+
+PANIC_MODELS = []
+
+
+def model(pattern):
+    """registers into PANIC_MODELS only: these models are switched on per audit (extra_models=PANIC_MODELS), because they
+    replace call records (len, find, split_at) that binding requirements of other properties look for"""
+    def deco(fn):
+        PANIC_MODELS.append((re.compile(pattern), fn))
+        fn.pattern = pattern
+        return fn
+    return deco
+
+
+@model(r'(^|::)(Vec|String)(<.*>)?::len$')
+def vec_len_model(ex, st, fr, name, args, dty):
+    return slice_len(ex, st, fr, name, args, dty)
+
 
 U64MAX = z3.BitVecVal(2 ** 64 - 1, 64)
 
